@@ -155,29 +155,42 @@ func runC10(ctx *core.Ctx, out *core.Out) {
 		}
 		return
 	}
-	// deadlines as identifiers
-	for _, cl := range clean.w.Calls {
-		for oi := cl.OpsBefore; oi < cl.OpsAfter; oi++ {
-			op := clean.ops[oi]
-			if op.Kind != xport.OpWrite {
-				continue
+	// deadlines as identifiers: at every transport Write the write deadline armed on
+	// the transport (the last SetWriteDeadline/SetDeadline it saw; none = zero) must be
+	// the one the property names for that frame
+	{
+		var armed time.Time
+		callOf := make([]int, len(clean.ops))
+		for i := range callOf {
+			callOf[i] = -1
+		}
+		for ci, cl := range clean.w.Calls {
+			for oi := cl.OpsBefore; oi < cl.OpsAfter && oi < len(callOf); oi++ {
+				callOf[oi] = ci
 			}
-			j := oi - 1
-			for j >= cl.OpsBefore && clean.ops[j].Kind == xport.OpWrite {
-				j--
-			}
-			out.Count("deadline_pairs_checked", 1)
-			if j < cl.OpsBefore || clean.ops[j].Kind != xport.OpSetWriteDeadline {
-				fail("write-without-deadline", fmt.Sprintf("transport Write during %s (step %d) is not preceded by SetWriteDeadline within the same call", cl.Name, cl.Step), map[string]interface{}{"ops": opsDesc(clean.ops[cl.OpsBefore:cl.OpsAfter])})
-				return
-			}
-			if !clean.ops[j].T.Equal(cl.Deadline) || clean.ops[j].T.IsZero() != cl.Deadline.IsZero() {
-				which := "the deadline last given to SetWriteDeadline"
-				if cl.Name == "WriteControl" {
-					which = "WriteControl's own deadline argument"
+		}
+		for oi, op := range clean.ops {
+			switch op.Kind {
+			case xport.OpSetWriteDeadline, xport.OpSetDeadline:
+				armed = op.T
+			case xport.OpWrite:
+				if callOf[oi] < 0 {
+					continue
 				}
-				fail("wrong-deadline", fmt.Sprintf("frame written during %s (step %d) under deadline %v, expected %s = %v", cl.Name, cl.Step, dlName(clean.w, clean.ops[j].T), which, dlName(clean.w, cl.Deadline)), nil)
-				return
+				cl := clean.w.Calls[callOf[oi]]
+				out.Count("deadline_pairs_checked", 1)
+				if !armed.Equal(cl.Deadline) || armed.IsZero() != cl.Deadline.IsZero() {
+					which := "the deadline last given to SetWriteDeadline"
+					if cl.Name == "WriteControl" {
+						which = "WriteControl's own deadline argument"
+					}
+					sig := "wrong-deadline"
+					if cl.Deadline.IsZero() {
+						sig = "write-without-deadline" // a stale deadline is still armed where none should be
+					}
+					fail(sig, fmt.Sprintf("frame written during %s (step %d) while the transport's write deadline is %v; expected %s = %v", cl.Name, cl.Step, dlName(clean.w, armed), which, dlName(clean.w, cl.Deadline)), map[string]interface{}{"ops": opsDesc(clean.ops[cl.OpsBefore:cl.OpsAfter])})
+					return
+				}
 			}
 		}
 	}
